@@ -112,7 +112,15 @@ def gen_scenario(seed, index):
                 ops.append({"op": "register", "mid": "mx"})
             else:
                 ops.append({"op": "unregister", "mid": rng.choice(regs)[0]})
-    return {"label": f"seed:{s}", "spec": spec, "regs": regs, "corpus": corpus, "ops": ops}
+    scen = {"label": f"seed:{s}", "spec": spec, "regs": regs, "corpus": corpus, "ops": ops}
+    has_fnext = any(spec["methods"][r[0]]["body"][0] == "fnext" for r in regs)
+    if rng.random() < 0.25 and not has_fnext:
+        # the function under test is a linked child (copy with linkback) of a parent that holds the
+        # methods and has never been called; "parent_call" disturbances use the parent
+        scen["as_child"] = True
+        for _ in range(rng.randint(1, 3)):
+            ops.insert(rng.randrange(len(ops) + 1), {"op": "parent_call", "i": rng.randrange(len(corpus))})
+    return scen
 
 
 def type_combo(c):
@@ -129,7 +137,15 @@ def execute(scen):
     begin_run()
     spec = scen["spec"]
     codes, missing = monitored_codes()
-    h = Harness(spec, scen["regs"])
+    if scen.get("as_child"):
+        h = Harness(spec, scen["regs"], fname="p")
+        child = h.ov.copy(linkback=True)
+        child.rename("f", "f")
+        h.w.funcs["f"] = child
+        h.fname = "f"
+    else:
+        h = Harness(spec, scen["regs"])
+    target = "p" if scen.get("as_child") else "f"  # where registrations go
     regs = [list(r) for r in scen["regs"]]
     corpus = scen["corpus"]
     violation = None
@@ -260,8 +276,16 @@ def execute(scen):
                 stats["disturb"]["derive:" + op["how"]] = stats["disturb"].get("derive:" + op["how"], 0) + 1
             except Exception as e:  # noqa: BLE001
                 trace.append(["derive-error", type(e).__name__])
+        elif k == "parent_call":
+            if scen.get("as_child"):
+                h.w.call("p", corpus[op["i"]])
+                stats["disturb"]["parent_call"] = stats["disturb"].get("parent_call", 0) + 1
         elif k in ("register", "unregister"):
-            r = h.apply({"op": k, "mid": op["mid"]})
+            try:
+                (h.w.register if k == "register" else h.w.unregister)(target, op["mid"])
+                r = ["ok"]
+            except Exception as e:  # noqa: BLE001
+                r = ["err", type(e).__name__]
             trace.append([k, r[0]])
             stats["disturb"][k] = stats["disturb"].get(k, 0) + 1
             warmed.clear()
